@@ -202,6 +202,12 @@ func switchSuite() []swModel {
 	add("alternative that can never match", "'b' 'y' / [z-a] e / 'c' 'z' / [q-p]", func(m *model) *Obj {
 		return m.alt(m.seq(m.char("b"), m.char("y")), m.seq(m.rng("z", "a"), e(m)), m.seq(m.char("c"), m.char("z")), m.rng("q", "p"))
 	})
+	add("alternative that can never match", "[z-a] / [y-b] / [x-c]  (none can match)", func(m *model) *Obj {
+		return m.alt(m.rng("z", "a"), m.rng("y", "b"), m.rng("x", "c"))
+	})
+	add("alternative that can never match", "[z-a] e / 'b' e / [x-c]  (one case left)", func(m *model) *Obj {
+		return m.alt(m.seq(m.rng("z", "a"), e(m)), m.seq(m.char("b"), e(m)), m.rng("x", "c"))
+	})
 	add("no rewrite (dot intersects)", "'a' e / 'b' e / . e", func(m *model) *Obj {
 		return m.alt(m.seq(m.char("a"), e(m)), m.seq(m.char("b"), e(m)), m.seq(m.dot(), e(m)))
 	})
